@@ -15,3 +15,5 @@ UNDECIDED = ("content equality for a concrete input (no file is produced or deco
 ASSUMPTIONS = [K.A_BYTEORDER, K.A_BYTES, K.A_ZLIB, K.A_TABLE, K.A_PRED, "futures mpsc / crossbeam channels are FIFO; Vec preserves order"]
 OBLIGATIONS = ([K.WIG_SECTION_W] + K.WRITER_LAYOUT + K.SPANS + [K.WIG_FLUSH, K.WRITE_DATA, K.WRITE_MID, K.HEADER_ARGS, K.VALS_RETURNS, K.BUFSIZE,
                K.IDMAP, K.INDEX_PAIRS] + K.READER_COMMON + K.CIR_READER + [K.WIG_BLOCK_R, K.WIG_KEEP, K.QUERY_ARGS, K.OVERLAPS, K.WIG_GUARDS])
+OBLIGATIONS = OBLIGATIONS + [K.BLOCK_DATA, K.SEARCH_ORDER, K.INTERVAL_SIBS]
+OBLIGATIONS = OBLIGATIONS + [K.TREE_OFFSETS]
